@@ -228,9 +228,15 @@ fn synthetic_zones(code: u64, tier: Tier) -> Option<(RefZone, u8, V1Block, bool)
             // northern rule: standard time in January; southern rule: DST in January
             let north = RefRule { std: ty(0, false), dst: Some(RefDst { ty: ty(3600, true), start: RuleDay::M { m: 3, w: 2, d: 0 }, start_time: 7200, end: RuleDay::M { m: 11, w: 1, d: 0 }, end_time: 7200 }) };
             let south = RefRule { std: ty(-3600, false), dst: Some(RefDst { ty: ty(0, true), start: RuleDay::M { m: 10, w: 1, d: 0 }, start_time: 7200, end: RuleDay::M { m: 3, w: 3, d: 0 }, end_time: 10800 }) };
-            if last_ty == ty(0, false) {
+            // the footer must agree with the last transition's type at that instant
+            let at = trans.last().map(|x| x.0).unwrap_or(t0);
+            let in_effect = |r: &RefRule| {
+                let d = r.dst.as_ref().unwrap();
+                if r.offset_at(at) == d.ty.off { d.ty.clone() } else { r.std.clone() }
+            };
+            if in_effect(&north) == last_ty {
                 Some(north)
-            } else if last_ty == ty(0, true) {
+            } else if in_effect(&south) == last_ty {
                 Some(south)
             } else {
                 return None;
